@@ -307,7 +307,7 @@ def _java(extra=()):
 
 
 class Ctx:
-    def __init__(self, pid, tier, seed):
+    def __init__(self, pid, tier, seed, keep_replays=False):
         self.pid = pid
         self.tier = tier
         self.seed = seed
@@ -330,7 +330,7 @@ class Ctx:
         os.makedirs(self.work)
         os.makedirs(self.replay_dir, exist_ok=True)
         import glob
-        for f in glob.glob(os.path.join(self.replay_dir, "%s_%s_*.json" % (pid, tier))):
+        for f in ([] if keep_replays else glob.glob(os.path.join(self.replay_dir, "%s_%s_*.json" % (pid, tier)))):
             os.remove(f)
 
     # ---- shell ----
@@ -696,8 +696,9 @@ class Ctx:
             "violations": len(viol),
         }
         ev["coverage"].update(self.extra)
-        with open(os.path.join(VERIF, "evidence", self.pid + ".json"), "w") as f:
-            json.dump(ev, f, indent=1)
+        if self.tier != "replay":
+            with open(os.path.join(VERIF, "evidence", self.pid + ".json"), "w") as f:
+                json.dump(ev, f, indent=1)
         self.cleanup()
         if self.drift:
             c = collections.Counter((r["event"].get("e"), tuple(r.get("clauses", []))) for r in self.drift)
